@@ -223,10 +223,26 @@ nstxout=10
 nstxout-compressed = 500
 """
 
+# the same with trailing comments that contain the delimiter again
+MDP2 = """; a comment = not a key
+integrator = md-vv   ; = velocity verlet
+dt = 0.002 ; dt=2 fs
+nsteps   =  100 ; = 0.2 ps
+; nsteps = 5
+tc-grps = System
+nstxout=10 ;=every 10
+nstxout-compressed = 500
+"""
+
 
 def mdp_cases(j, wd, quick):
     from infretis.classes.engines.enginebase import EngineBase as EB
 
+    for MDP_ in (MDP, MDP2):
+        _mdp_template(j, wd, EB, MDP_)
+
+
+def _mdp_template(j, wd, EB, MDP):
     src = os.path.join(wd, "in.mdp")
     with open(src, "w") as f:
         f.write(MDP)
@@ -251,6 +267,15 @@ def mdp_cases(j, wd, quick):
                 j.fail("mdp:phantom-entry", f"{set(got) - set(base) - set(settings)}")
             if open(o1).read() != open(o2).read():
                 j.fail("mdp:not-idempotent", f"applying {sub} twice differs from once")
+            # every key is defined on exactly one line of the result
+            defs = {}
+            for ln in open(o1).read().splitlines():
+                if ln.strip() and not ln.lstrip().startswith(";") and "=" in ln:
+                    kk = ln.split("=")[0].strip()
+                    defs[kk] = defs.get(kk, 0) + 1
+            twice = sorted(k for k, c in defs.items() if c > 1)
+            if twice:
+                j.fail("mdp:key-defined-twice", f"after setting {sub}: {twice} defined on more than one line")
             # untouched lines byte-equal
             l0, l1 = MDP.splitlines(), open(o1).read().splitlines()
             for a, b in zip(l0, l1):
